@@ -486,11 +486,24 @@ class atom(boolean.AndRestriction):
         if c:
             return c
 
+        c = cmp(f(self.subslot), f(other.subslot))
+        if c:
+            return c
+
+        c = cmp(f(self.slot_operator), f(other.slot_operator))
+        if c:
+            return c
+
         c = cmp(self.use, other.use)
         if c:
             return c
 
-        return cmp(self.repo_id, other.repo_id)
+        c = cmp(self.repo_id, other.repo_id)
+        if c:
+            return c
+
+        # equal versions written differently (1.0 vs 1.00, -r0) are unequal atoms
+        return cmp(self.cpvstr, other.cpvstr)
 
     no_usedeps = klass.alias_attr("get_atom_without_use_deps")
 
